@@ -15,8 +15,10 @@ META = {
                  "compilation of generated and repository programs in fresh processes under several PYTHONHASHSEEDs",
     "level_text": "Theorems C13_sorting_is_canonical, C13_set_uses_declared (regenerated obligation over all set uses of "
                   "compiler.py/scoping.py/result_macros.py/macros.py), C13_finalize_perm_independent, "
-                  "C13_outervar_perm_independent_iff_sorted hold for every permutation oracle, scope chain and name list; "
-                  "C13_outervar_list_refuted exhibits the order dependence of the current visit_OuterVar. The oracle "
+                  "C13_outervar_perm_independent_iff_sorted, C13_scope_machine_perm_independent hold for every permutation "
+                  "oracle, scope chain, name list and event sequence; which branch applies to the current source is "
+                  "regenerated (outervar_nonlocal_order); C13_outervar_list_refuted is the order dependence of the "
+                  "list(<set>) shape (the source before cab9d54). The oracle "
                   "compiles each program under 8 (quick) / 16 (thorough) hash seeds and compares ast.dump and marshal.dumps.",
     "level_note": "Proof covers the set-iteration mechanism only (the one process-dependent input the anchors name); other "
                   "sources of nondeterminism (time, ids, filesystem order) are covered by the differential oracle alone. "
